@@ -238,7 +238,7 @@ def exact_index_answers(ctx):
                  cf.loc(), {"summary": S, "sanitises": san})
 
 
-@rule("C01.R10", ["C01", "C02", "C03"], min_instances=3, design="3.1")
+@rule("C01.R10", ["C01", "C02", "C03"], min_instances=1, design="3.1")
 def whole_index_shortcut_only_picks_the_path(ctx):
     """The `every indexed position is a candidate` shortcut of a consumer only switches to the scan path (which evaluates the query on every row); it sets no other flag -- candidates are not matches."""
     cons = index_consumers(ctx)
@@ -275,8 +275,23 @@ def whole_index_shortcut_only_picks_the_path(ctx):
                      (f"`{norm(other[0], 60)}` inside the shortcut: the scan that follows no longer evaluates the query, although the "
                       f"index hands out candidates, not matches (e.g. for a negated field query)" if other else
                       f"flag(s) {flags} do not gate the index loop"), ctx.prog.loc(t))
-    if n < 3:
-        raise AnalysisError("C01.R10", f"expected >=3 whole-index shortcuts in the consumers of Index.search, found {n}")
+    # the same decision written as an assignment of the gating flag: `use_index = len(items) != len(index)`
+    for cf in {c_.qual: c_ for c_, _ in cons}.values():
+        for st in walk_local(cf.node):
+            if isinstance(st, ast.Assign) and len(st.targets) == 1 and isinstance(st.targets[0], ast.Name) \
+                    and isinstance(st.value, ast.Compare) and len(st.value.ops) == 1 and isinstance(st.value.ops[0], (ast.NotEq, ast.Eq)):
+                a, b = norm(st.value.left), norm(st.value.comparators[0])
+                if a.startswith("len(") and b.startswith("len(") and ("_index" in a + b) and ("items" in a + b):
+                    n += 1
+                    fl_ = st.targets[0].id
+                    gate_ok = isinstance(st.value.ops[0], ast.NotEq) and any(
+                        isinstance(i, ast.If) and norm(i.test) == fl_ for i in walk_local(cf.node))
+                    yield Ob("C01.R10", [PROP_OF_CONSUMER.get(cf.name, "C01")], f"{cf.qual} | whole-index shortcut{occ(cf, st)}", gate_ok,
+                             "only selects the scan path" if gate_ok else
+                             f"`{norm(st, 60)}` does not clear the flag that gates the index loop when every position is a candidate",
+                             ctx.prog.loc(st))
+    if n < 1:
+        raise AnalysisError("C01.R10", f"no whole-index shortcut found in the consumers of Index.search")
 
 
 @rule("C01.R11", ["C01"], min_instances=1, design="3.1")
